@@ -14,6 +14,8 @@
            | {"k":"alias","e":E,"a":str} | {"k":"fields","e":E,"cs":[E]} | {"k":"on","e":E,"ty":str,"cs":[E]}
            | {"k":"var","x":str}
     RESULT = {"doc": DOC | null, "error": str | null, "valid": bool, "trig": {...}, "deepVars": bool}
+    DOC    = {"type","name","varDefs":[[name, type]],"sels":[SEL],"values": wire object (the `variables` of the request),
+              "operationName": the `operation_name` handed to `execute`}
   Each sequence starts from the state right after import (history = the earlier OPs of the sequence).
   Every sequence is run by `runPOp` (Model/BuilderLet.lean), which on variable-free operations IS `runOp`
   (`Properties/C14.lean: runProg_conservative`); the triggers of the findings stated on tree expressions are
@@ -112,11 +114,13 @@ partial def encSel : Sel → Json
       ("set", hs), ("sels", .arr (sels.map encSel).toArray)]
   | .frag ty sels => Json.mkObj [("on", ty), ("sels", .arr (sels.map encSel).toArray)]
 
+/-- the request `execute` receives (`Doc.request`): document IR, `variables`, `operationName` -/
 def encDoc (d : Doc) : Json :=
-  Json.mkObj [("type", d.opType), ("name", d.name),
-    ("varDefs", .arr (d.varDefs.map fun (n, t) => Json.arr #[.str n, .str t]).toArray),
-    ("sels", .arr (d.sels.map encSel).toArray),
-    ("values", enc (.obj d.values))]
+  let r := d.request
+  Json.mkObj [("type", r.query.opType), ("name", r.query.name),
+    ("varDefs", .arr (r.query.varDefs.map fun (n, t) => Json.arr #[.str n, .str t]).toArray),
+    ("sels", .arr (r.query.sels.map encSel).toArray),
+    ("values", enc (.obj r.variables)), ("operationName", r.operationName)]
 
 def encErr : Err → String
   | .recursion => "RecursionError"
